@@ -1,5 +1,10 @@
 import AffVerif.Proofs.SchemaLemmas
 import AffVerif.Proofs.ChainLemmas
+import AffVerif.Proofs.KeepLemmas
+import AffVerif.Proofs.TreeLemmas
+import AffVerif.Props.C02
+import AffVerif.Props.C04
+import AffVerif.Props.C16
 /-!
 # C17 — predefined trees equal their mathematical definitions everywhere
 
@@ -7,8 +12,8 @@ For every dimension `n`, component `r < n`, parameter value and input of length 
 because the comparisons in `Spec.*` are the very comparisons that decide the label (`≤` routes to the closed
 side).  `Spec.onComp x r φ` replaces component `r` by `φ (x_r)` and leaves the others untouched.
 Proved here: the six per-neuron activations, `from_poly` (total and partial), `class_characterization`, `inf_norm`
-and the `argmax` tournament.  `from_slice`/`remove_axes` are covered by the correspondence check with exact
-comparison of the generated trees against the model trees and of their values at breakpoints and ties.
+the `argmax` tournament, and `from_slice` + `remove_axes` (`C17_slice`: the restriction of any tree to an axis-aligned
+slice, via the composition law of C02 and the fact that a tree composed behind `slice` ignores the fixed axes).
 -/
 set_option linter.unusedSectionVars false
 set_option linter.unusedVariables false
@@ -341,5 +346,200 @@ theorem C17_argmax (n : Nat) (ofNat : Nat → α) (x : List α) (hn : 2 ≤ n) (
 example : PT.eval (Sch.partialReLU 3 1 : PT Rat) [5, 0, -2] = some [5, 0, -2] := by decide +kernel
 example : PT.eval (Sch.partialReLU 3 1 : PT Rat) [5, -7, -2] = some [5, 0, -2] := by decide +kernel
 example : PT.eval (Sch.partialHardShrink 1 0 (2 : Rat)) [2] = some [0] := by decide +kernel
+
+/-! ### `from_slice` + `remove_axes` -/
+
+/-- every row of a map has `n` entries and vanishes on the dropped axes -/
+def Aff.FreeOf (n : Nat) (p : Nat → Bool) (a : Aff α) : Prop :=
+  ∀ r ∈ a.mat, r.length = n ∧ ∀ j < n, p j = false → r.getD j 0 = 0
+
+mutual
+def PT.FreeOf (n : Nat) (p : Nat → Bool) : PT α → Prop
+  | .node _ c ks => Aff.FreeOf n p c.aff ∧ PKids.FreeOf n p ks
+def PKids.FreeOf (n : Nat) (p : Nat → Bool) : PKids α → Prop
+  | .nil => True
+  | .cons none r => PKids.FreeOf n p r
+  | .cons (some t) r => PT.FreeOf n p t ∧ PKids.FreeOf n p r
+end
+
+theorem labelBits_map (f : List α → List α) (M : Mat α) (b x y : List α) (h : ∀ r ∈ M, dot (f r) y = dot r x) :
+    labelBits (M.map f) b y = labelBits M b x := by
+  induction M generalizing b with
+  | nil => simp [labelBits]
+  | cons r rs ih =>
+    cases b with
+    | nil => simp [labelBits]
+    | cons b0 bs =>
+      simp only [List.map_cons, labelBits]
+      rw [h r (by simp), ih bs (fun r' hr' => h r' (by simp [hr']))]
+
+theorem PKids.removeAxesK_allNone (keep : List Nat) (ks : PKids α) :
+    (Sch.removeAxesK keep ks).allNone = ks.allNone := by
+  match ks with
+  | .nil => simp [Sch.removeAxesK, IKids.allNone]
+  | .cons none r => simp [Sch.removeAxesK, IKids.allNone, PKids.removeAxesK_allNone keep r]
+  | .cons (some t) r => simp [Sch.removeAxesK, IKids.allNone]
+
+mutual
+/-- `remove_axes` on a tree that does not look at the dropped axes: the value at the kept coordinates of `x` is the
+    value of the tree at `x` -/
+theorem PT.eval_removeAxes (n : Nat) (p : Nat → Bool) (t : PT α) (x : List α) (hx : x.length = n)
+    (hf : PT.FreeOf n p t) :
+    PT.eval (Sch.removeAxes (keepOf n p) t) ((keepOf n p).map (fun j => x.getD j 0)) = PT.eval t x := by
+  match t with
+  | .node i c ks =>
+    unfold PT.FreeOf at hf
+    have hrow : ∀ r ∈ c.aff.mat, dot ((keepOf n p).map (fun j => r.getD j 0)) ((keepOf n p).map (fun j => x.getD j 0)) = dot r x :=
+      fun r hr => dot_keep n p r x (hf.1 r hr).1 hx (hf.1 r hr).2
+    simp only [Sch.removeAxes, PT.eval, PKids.removeAxesK_allNone]
+    split
+    · congr 1
+      unfold Aff.apply
+      congr 1
+      simp only [matVec, List.map_map]
+      apply List.map_congr_left
+      intro r hr
+      exact hrow r hr
+    · simp only [Aff.label]
+      rw [labelBits_map _ _ _ x _ hrow]
+      exact PKids.evalAt_removeAxes n p ks (c.aff.label x) x hx hf.2
+theorem PKids.evalAt_removeAxes (n : Nat) (p : Nat → Bool) (ks : PKids α) (l : Nat) (x : List α) (hx : x.length = n)
+    (hf : PKids.FreeOf n p ks) :
+    PKids.evalAt (Sch.removeAxesK (keepOf n p) ks) l ((keepOf n p).map (fun j => x.getD j 0)) = PKids.evalAt ks l x := by
+  match ks, l with
+  | .nil, _ => simp [Sch.removeAxesK, PKids.evalAt]
+  | .cons none r, 0 => simp [Sch.removeAxesK, PKids.evalAt]
+  | .cons (some t) r, 0 =>
+    unfold PKids.FreeOf at hf
+    simp only [Sch.removeAxesK, PKids.evalAt]
+    exact PT.eval_removeAxes n p t x hx hf.1
+  | .cons none r, l+1 =>
+    unfold PKids.FreeOf at hf
+    simp only [Sch.removeAxesK, PKids.evalAt]
+    exact PKids.evalAt_removeAxes n p r l x hx hf
+  | .cons (some t) r, l+1 =>
+    unfold PKids.FreeOf at hf
+    simp only [Sch.removeAxesK, PKids.evalAt]
+    exact PKids.evalAt_removeAxes n p r l x hx hf.2
+end
+
+
+/-- column `j` of the matrix of `s` is zero for every dropped axis `j` -/
+def ColZero (n : Nat) (p : Nat → Bool) (s : Aff α) : Prop :=
+  ∀ j < n, p j = false → ∀ e ∈ matVec s.mat (unitVec n j 1), e = 0
+
+/-- a row of `A·S` does not look at the axes on which `S` has a zero column -/
+theorem vecMat_free (n : Nat) (p : Nat → Bool) (s : Aff α) (hs : ∀ b ∈ s.mat, b.length = n) (hc : ColZero n p s)
+    (r0 : List α) (hr0 : r0.length = s.mat.length) :
+    (vecMat n r0 s.mat).length = n ∧ ∀ j < n, p j = false → (vecMat n r0 s.mat).getD j 0 = 0 := by
+  refine ⟨vecMat_length n r0 s.mat hs, ?_⟩
+  intro j hj hp
+  have h1 : dot (unitVec n j 1) (vecMat n r0 s.mat) = (vecMat n r0 s.mat).getD j 0 := by
+    rw [dot_unitVec]; simp [hj]
+  rw [← h1, dot_comm, dot_vecMat n r0 s.mat _ hs hr0, dot_comm]
+  exact dot_all_zero _ _ (hc j hj hp)
+
+theorem matMul_free (n : Nat) (p : Nat → Bool) (s : Aff α) (hs : ∀ b ∈ s.mat, b.length = n) (hc : ColZero n p s)
+    (M : Mat α) (hM : ∀ r ∈ M, r.length = s.mat.length) :
+    ∀ r ∈ matMul n M s.mat, r.length = n ∧ ∀ j < n, p j = false → r.getD j 0 = 0 := by
+  intro r hr
+  simp only [matMul, List.mem_map] at hr
+  obtain ⟨r0, hr0, rfl⟩ := hr
+  exact vecMat_free n p s hs hc r0 (hM r0 hr0)
+
+theorem upd_free (n : Nat) (p : Nat → Bool) (s : Aff α) (hn : s.indim = n) (hs : ∀ b ∈ s.mat, b.length = n)
+    (hc : ColZero n p s) (o : Aff α) (ho : ∀ r ∈ o.mat, r.length = s.mat.length) (leaf : Bool) :
+    Aff.FreeOf n p (Schema.compose.upd leaf o s) := by
+  unfold Aff.FreeOf Schema.upd Schema.compose
+  cases leaf
+  · simp only [Bool.false_eq_true, if_false, Aff.updDecision, hn]
+    exact matMul_free n p s hs hc o.mat ho
+  · simp only [if_true, Aff.compose, hn]
+    exact matMul_free n p s hs hc o.mat ho
+
+mutual
+theorem PT.graft_free (n : Nat) (p : Nat → Bool) (s : Aff α) (hn : s.indim = n) (hs : ∀ b ∈ s.mat, b.length = n)
+    (hc : ColZero n p s) (K m : Nat) (g : PT α) (c : Nat) (hg : PT.Shaped K s.mat.length m g) :
+    PT.FreeOf n p (PT.graft Schema.compose g s c).1 := by
+  match g with
+  | .node j gc gk =>
+    obtain ⟨gwf, gin, _, _, _, gks⟩ := hg
+    simp only [PT.graft, PT.FreeOf, Content.new]
+    exact ⟨upd_free n p s hn hs hc gc.aff (fun r hr => by rw [gwf.1 r hr, gin]) _, PKids.graft_free n p s hn hs hc K m gk (c+1) gks⟩
+theorem PKids.graft_free (n : Nat) (p : Nat → Bool) (s : Aff α) (hn : s.indim = n) (hs : ∀ b ∈ s.mat, b.length = n)
+    (hc : ColZero n p s) (K m : Nat) (ks : PKids α) (c : Nat) (hg : PKids.Shaped K s.mat.length m ks) :
+    PKids.FreeOf n p (PKids.graft Schema.compose ks s c).1 := by
+  match ks with
+  | .nil => simp [PKids.graft, PKids.FreeOf]
+  | .cons none r =>
+    unfold PKids.Shaped at hg
+    simp only [PKids.graft, PKids.FreeOf]
+    exact PKids.graft_free n p s hn hs hc K m r c hg
+  | .cons (some t) r =>
+    unfold PKids.Shaped at hg
+    simp only [PKids.graft, PKids.FreeOf]
+    exact ⟨PT.graft_free n p s hn hs hc K m t c hg.1, PKids.graft_free n p s hn hs hc K m r _ hg.2⟩
+end
+
+
+theorem slice_mat_rows (ref : List (Option α)) : ∀ b ∈ (Aff.slice ref : Aff α).mat, b.length = ref.length := by
+  intro b hb
+  simp only [Aff.slice, diag, List.mem_map, List.length_map] at hb
+  obtain ⟨i, _, rfl⟩ := hb
+  exact unitVec_length _ _ _
+
+theorem slice_mat_length (ref : List (Option α)) : (Aff.slice ref : Aff α).mat.length = ref.length := by
+  simp [Aff.slice, diag]
+
+theorem slice_wf (ref : List (Option α)) : (Aff.slice ref : Aff α).WF :=
+  ⟨slice_mat_rows ref, by simp [Aff.slice, diag]⟩
+
+theorem getD_unitVec (n i k : Nat) (c : α) (hk : k < n) : (unitVec n i c).getD k 0 = if k = i then c else 0 := by
+  simp [unitVec, List.getD_eq_getElem?_getD, List.getElem?_map, List.getElem?_range hk]
+
+theorem slice_colZero (ref : List (Option α)) :
+    ColZero ref.length (fun j => (ref.getD j none).isNone) (Aff.slice ref : Aff α) := by
+  intro j hj hp e he
+  simp only [Aff.slice, diag, List.length_map] at he
+  rw [matVec_diagLike] at he
+  simp only [List.mem_map, List.mem_range] at he
+  obtain ⟨k, hk, rfl⟩ := he
+  rw [getD_unitVec _ _ _ _ hk]
+  by_cases hkj : k = j
+  · subst hkj
+    simp only [if_true, mul_one]
+    simp only [List.getD_eq_getElem?_getD, List.getElem?_map, List.getElem?_eq_getElem hk, Option.map_some,
+      Option.getD_some] at hp ⊢
+    cases h : ref[k] with
+    | none => simp [h] at hp
+    | some v => simp
+  · simp [hkj]
+
+/-- `from_slice(ref).compose(g)` followed by `remove_axes(free axes)` is the restriction of `g` to the slice: its value
+    at the free coordinates of a point `x` is the value of `g` at `x` with the fixed axes set to the reference values -/
+theorem C17_slice (K m : Nat) (g : PT α) (ref : List (Option α)) (x : List α) (hx : x.length = ref.length)
+    (hg : PT.Shaped K ref.length m g) :
+    PT.eval (Sch.removeAxes (keepOf ref.length (fun j => (ref.getD j none).isNone))
+        (PT.compose (PT.fromAff K (Aff.slice ref)) g))
+      ((keepOf ref.length (fun j => (ref.getD j none).isNone)).map (fun j => x.getD j 0))
+    = PT.eval g ((List.range ref.length).map (fun k => match ref.getD k none with | none => x.getD k 0 | some v => v)) := by
+  have hfree : PT.FreeOf ref.length (fun j => (ref.getD j none).isNone) (PT.compose (PT.fromAff K (Aff.slice ref)) g) := by
+    unfold PT.compose PT.fromAff
+    match g, hg with
+    | .node j gc gk, hg =>
+      obtain ⟨gwf, gin, _, _, _, gks⟩ := hg
+      simp only [PT.composeS, IKids.allNone_empty, if_true, PT.FreeOf, Content.new]
+      exact ⟨upd_free _ _ _ (by simp [Aff.slice]) (slice_mat_rows ref) (slice_colZero ref) gc.aff
+          (fun r hr => by rw [gwf.1 r hr, gin, slice_mat_length]) _,
+        PKids.graft_free _ _ _ (by simp [Aff.slice]) (slice_mat_rows ref) (slice_colZero ref) K m gk _
+          (by rw [slice_mat_length]; exact gks)⟩
+  rw [PT.eval_removeAxes ref.length _ _ x hx hfree]
+  have hS : PT.Shaped K ref.length ref.length (PT.fromAff K (Aff.slice ref : Aff α)) := by
+    have := C04_ctor_from_aff K (Aff.slice ref : Aff α) (slice_wf ref)
+    simpa [Aff.slice, Aff.outdim, diag] using this
+  rw [C02_compose_law' _ g x K ref.length ref.length m hx hS hg]
+  simp only [PT.fromAff, PT.eval, IKids.allNone_empty, if_true, Option.bind_some, Content.new]
+  rw [C16_slice]
+  rfl
 
 end AV
